@@ -6,7 +6,7 @@ from ..common import Names, rat
 from . import c01
 
 PROP = "C02"
-LEAN_MODULE = "VK.Props.C02"
+LEAN_MODULE = "VK.Check.C02"
 THEOREMS = [
     "VK.C02_threshold_droop",
     "VK.C02_threshold_hare",
@@ -23,6 +23,9 @@ THEOREMS = [
     "VK.kernel_threshold_hare",
     "VK.kernel_transfer_value",
     "VK.kernel_transfer_value_used",
+    "VK.kernel_quota_simul",
+    "VK.kernel_quota_simul_used",
+    "VK.kernel_quota_step",
 ]
 RULE = ("cases = rule in {STV, IRV, SequentialRCV} x profile of untied ranked ballots (2-6 candidates, partial ballots, "
         "zero-vote candidates, unit/int/rational weights) x m x quota x simultaneous x tiebreak x transfer in "
